@@ -190,6 +190,9 @@ class BVV:
     @normalize_types
     @compare_bits
     def __lshift__(self, o):
+        if o.value >= self.bits:
+            # every bit is shifted out; do not build a huge Python integer first
+            return BVV(0, self.bits)
         return BVV(self.value << o.value, self.bits)
 
     @normalize_types
